@@ -141,6 +141,8 @@ class Lin:
             if self.of(t.idx) != "Z":
                 return "N"
             return join(self.of(t.obj), self.of(t.val))
+        if o == "grow":
+            return join(self.of(t.obj), self.of(t.val))
         if o == "if":
             c = self.of(t.cond)
             if c != "Z":
